@@ -359,7 +359,13 @@ class RemoteWorker(Worker, metaclass=RemoteWorkerMeta):
 
             self._child.join(timeout)
             if self._child.is_alive() and force:
-                os.kill(os.getpid(), signal.SIGTERM)
+                # the remote child is gone, only our frontend thread is left: release it from the data socket
+                # (sending SIGTERM to our own process would kill the caller)
+                try:
+                    self._socket.shutdown(socket.SHUT_RDWR)
+                except OSError:
+                    pass
+                self._child.join(timeout)
 
             alive = self._child.is_alive()
             if not alive:
